@@ -24,7 +24,7 @@ META = {
               "np.log -> Ackermannised with log(2) enclosed by mpmath intervals"],
     "assumptions": ["REAL mode", "intrinsic Cherenkov angle > 0, threshold / area / efficiency > 0, photon density >= 0", "detector above the decay point; emergence angle in [0, 90 deg)"],
 }
-LEDGER = {"quick": 325, "thorough": 500}
+LEDGER = {"quick": 950, "thorough": 950}
 
 
 def eas_run(N):
@@ -268,7 +268,7 @@ def job_scaling(K, tier):
 
 
 def jobs(tier, seed):
-    return [("eas", "job_eas", {"N": 2 if tier == "quick" else 3, "tier": tier}), ("eas1", "job_eas", {"N": 1, "tier": tier}),
+    return [("eas", "job_eas", {"N": 2, "tier": tier}), ("eas3", "job_eas", {"N": 3, "tier": tier}), ("eas1", "job_eas", {"N": 1, "tier": tier}),
             ("dist", "job_dist", {"tier": tier}), ("scal", "job_scaling", {"K": 3 if tier == "quick" else 4, "tier": tier})] + [
         (f"indep_{hname}", "job_indep", {"helper": hname, "K": 2 if tier == "quick" else 3, "tier": tier}) for hname in _INDEP_HELPERS]
 
@@ -290,11 +290,17 @@ def _real_eas(v, N):
     th = np.array([v.get(f"theta{i}", 1.0) for i in range(N)], dtype=float)
     seen = {}
 
+    k_ = np.arange(N, dtype=float)
+    cols = {"beta": 0.1 + 0.01 * k_, "E": 1.0 + k_, "lat": 0.2 + 0.01 * k_, "lon": -0.3 + 0.02 * k_}  # distinct per event: alignment is observable
+
     def kernel(beta, a, E, lat, lon, cloudf=None):
         m = (alt >= 0) & (alt <= 20)
         seen["n"] = len(a)
         seen["alt"] = np.array(a)
-        sel = [i for i in range(N) if any(np.isclose(alt[i], x) for x in a)]
+        got = {"beta": np.array(beta), "altDec": np.array(a), "E": np.array(E), "lat": np.array(lat), "lon": np.array(lon)}
+        want = {"beta": cols["beta"][m], "altDec": alt[m], "E": cols["E"][m], "lat": cols["lat"][m], "lon": cols["lon"][m]}
+        seen["misaligned"] = [f"{n_}: kernel received {got[n_].tolist()}, the in-range events have {want[n_].tolist()}" for n_ in got
+                              if got[n_].shape != want[n_].shape or not np.array_equal(got[n_], want[n_])]
         return rho[m], th[m]
 
     eas.CphotAng = kernel
@@ -310,11 +316,52 @@ def _real_eas(v, N):
 
     sys.setprofile(prof)
     try:
-        pe, c = eas(z + 0.1, alt, z + 1, z, z, cloudf=None)
+        pe, c = eas(cols["beta"].copy(), alt, cols["E"].copy(), cols["lat"].copy(), cols["lon"].copy(), cloudf=None)
     finally:
         sys.setprofile(None)
     seen["cos"] = np.array(c)
     return pe, cap.get("thetaChEff"), alt, rho, th, seen
+
+
+def _replay_eas(m, N, ob):
+    import numpy as np
+
+    try:
+        pe, theff, alt, rho, th, seen = _real_eas(m, N)
+    except Exception as ex:
+        return {"reproduced": True, "key": f"EAS.__call__: {type(ex).__name__}", "detail": f"raised {ex} at {m}"}
+    if seen.get("misaligned"):
+        return {"reproduced": True, "key": "EAS.__call__: the shower kernel does not receive the in-range events aligned across its five inputs",
+                "detail": "; ".join(seen["misaligned"]) + f" (decay altitudes {alt.tolist()})"}
+    area, qe, thr = m.get("area", 2.5), m.get("qe", 0.2), m.get("thr", 10.0)
+    bad = None
+    for i in range(N):
+        inr = 0 <= alt[i] <= 20
+        if inr:
+            ref = rho[i] * area * qe
+            ratio = ref / thr
+            tref = th[i] * max(1.0, np.sqrt(2 * np.log(ratio))) if ratio > 2 else th[i]
+            if "numPEs ==" in ob and abs(pe[i] - ref) > 1e-9 * abs(ref) + 1e-300:
+                bad = f"numPEs[{i}]={pe[i]} vs density*area*QE={ref}"
+            if ("effective angle" in ob or "ratio" in ob) and theff is not None and abs(theff[i] - tref) > 1e-6 * tref:
+                bad = f"effective angle[{i}]={theff[i]} vs reference {tref} (ratio {ratio})"
+            if ("effective angle" in ob or "ratio" in ob) and abs(seen["cos"][i] - np.cos(np.radians(tref))) > 1e-9:
+                bad = f"event {i}: returned costhetaChEff {seen['cos'][i]} is not cos of the effective angle {tref} deg demanded for PE/threshold = {ratio}"
+        else:
+            if "zero photo" in ob and pe[i] != 0:
+                bad = f"out-of-range event {i} has numPEs {pe[i]}"
+            if "1.5 deg" in ob and theff is not None and abs(theff[i] - 1.5) > 1e-6:
+                bad = f"out-of-range event {i} has angle {theff[i]}"
+            if ("1.5 deg" in ob or "returned cosine" in ob) and abs(seen["cos"][i] - np.cos(np.radians(1.5))) > 1e-9:
+                bad = f"out-of-range event {i}: returned costhetaChEff {seen['cos'][i]} is not cos(1.5 deg) = {np.cos(np.radians(1.5))}"
+        if "returned cosine" in ob and theff is not None and abs(seen["cos"][i] - np.cos(np.radians(theff[i]))) > 1e-9:
+            bad = f"event {i}: returned cosine {seen['cos'][i]} is not cos(radians({theff[i]}))"
+    nin = int(((alt >= 0) & (alt <= 20)).sum())
+    if ("simulated iff" in ob or "receives exactly" in ob) and seen.get("n", 0) != nin:
+        bad = f"kernel saw {seen.get('n')} events, {nin} are in range (altDec={alt.tolist()})"
+    if bad:
+        return {"reproduced": True, "key": "EAS.__call__: " + ob.split("/", 1)[-1].split("] ", 1)[-1], "detail": bad + f" at {m}"}
+    return {"reproduced": False, "key": None, "detail": "real code satisfies the predicate"}
 
 
 def replay(v):
@@ -324,37 +371,17 @@ def replay(v):
     m = {k: x for k, x in (v.get("model") or {}).items() if x is not None}
     if job.startswith("EAS.__call__"):
         N = int(job.split("N=")[1].rstrip(")"))
-        try:
-            pe, theff, alt, rho, th, seen = _real_eas(m, N)
-        except Exception as ex:
-            return {"reproduced": True, "key": f"EAS.__call__: {type(ex).__name__}", "detail": f"raised {ex} at {m}"}
-        area, qe, thr = m.get("area", 2.5), m.get("qe", 0.2), m.get("thr", 10.0)
-        bad = None
-        for i in range(N):
-            inr = 0 <= alt[i] <= 20
-            if inr:
-                ref = rho[i] * area * qe
-                ratio = ref / thr
-                tref = th[i] * max(1.0, np.sqrt(2 * np.log(ratio))) if ratio > 2 else th[i]
-                if "numPEs ==" in ob and abs(pe[i] - ref) > 1e-9 * abs(ref) + 1e-300:
-                    bad = f"numPEs[{i}]={pe[i]} vs density*area*QE={ref}"
-                if ("effective angle" in ob or "ratio" in ob) and theff is not None and abs(theff[i] - tref) > 1e-6 * tref:
-                    bad = f"effective angle[{i}]={theff[i]} vs reference {tref} (ratio {ratio})"
-            else:
-                if "zero photo" in ob and pe[i] != 0:
-                    bad = f"out-of-range event {i} has numPEs {pe[i]}"
-                if "1.5 deg" in ob and theff is not None and abs(theff[i] - 1.5) > 1e-6:
-                    bad = f"out-of-range event {i} has angle {theff[i]}"
-                if ("1.5 deg" in ob or "returned cosine" in ob) and abs(seen["cos"][i] - np.cos(np.radians(1.5))) > 1e-9:
-                    bad = f"out-of-range event {i}: returned costhetaChEff {seen['cos'][i]} is not cos(1.5 deg) = {np.cos(np.radians(1.5))}"
-            if "returned cosine" in ob and theff is not None and abs(seen["cos"][i] - np.cos(np.radians(theff[i]))) > 1e-9:
-                bad = f"event {i}: returned cosine {seen['cos'][i]} is not cos(radians({theff[i]}))"
-        nin = int(((alt >= 0) & (alt <= 20)).sum())
-        if ("simulated iff" in ob or "receives exactly" in ob) and seen.get("n", 0) != nin:
-            bad = f"kernel saw {seen.get('n')} events, {nin} are in range (altDec={alt.tolist()})"
-        if bad:
-            return {"reproduced": True, "key": "EAS.__call__: " + ob.split("/", 1)[-1].split("] ", 1)[-1], "detail": bad + f" at {m}"}
-        return {"reproduced": False, "key": None, "detail": "real code satisfies the predicate"}
+        r = None
+        for distinct in (False, True):
+            mm = dict(m)
+            if distinct:  # same in/out-of-range pattern, but every event with its own density and angle (a swap between events shows)
+                for i in range(N):
+                    mm[f"rho{i}"], mm[f"theta{i}"] = 30.0 * (i + 1.5), 0.4 + 0.17 * i
+                mm.update({"area": 2.0, "qe": 0.5, "thr": 10.0})
+            r = _replay_eas(mm, N, ob)
+            if r["reproduced"]:
+                return r
+        return r
     if job.startswith("distance_to_detector"):
         from nuspacesim.simulation.eas_optical.detector_geometry import distance_to_detector
 
